@@ -309,16 +309,32 @@ class SolverMixin:
         if len(self.span) == 0:
             raise SolutionError('Object `span` is empty: No periods to solve')
 
-        # Default start and end periods
+        # Positions of the first and last periods: labels given by the caller
+        # are looked up in `span`; the defaults are positions already (looking
+        # up the label found there would return another period whenever that
+        # label is not unique in `span`)
         if start is None:
-            start = self.span[self.lags]
+            start_index = self.lags
+            if start_index >= len(self.span):
+                raise IndexError(
+                    f'Too few periods ({len(self.span)}) in `span` '
+                    f'for the lags of the current object ({self.lags})'
+                )
+        else:
+            start_index = self._locate_period_in_span(start)
+
         if end is None:
-            end = self.span[-1 - self.leads]
+            end_index = len(self.span) - 1 - self.leads
+            if end_index < 0:
+                raise IndexError(
+                    f'Too few periods ({len(self.span)}) in `span` '
+                    f'for the leads of the current object ({self.leads})'
+                )
+        else:
+            end_index = self._locate_period_in_span(end)
 
         # Convert to an integer range
-        indexes = range(
-            self._locate_period_in_span(start), self._locate_period_in_span(end) + 1
-        )
+        indexes = range(start_index, end_index + 1)
 
         return PeriodIter(indexes, self.span[indexes.start : indexes.stop])
 
